@@ -20,7 +20,7 @@ let parse_zones spec : ZoneTree.zone option array =
   if spec = "-" then [||] else
   Array.of_list (Stdlib.List.map (fun e ->
     match String.split_on_char ',' e with
-    | cl :: nm :: st :: rest when st <> "N" && st <> "F" ->
+    | cl :: nm :: st :: rest when st <> "N" && st <> "F" && st <> "R" ->
       let cls = n_of_int (int_of_string cl) in
       let apex = Server.wire_labels (unhex nm) in
       let recs = (match rest with
@@ -80,24 +80,26 @@ let render_octets (b : BinNums.coq_N list) =
       (Stdlib.List.length m.MsgWriterS.m_ar)
       (String.concat "," (Stdlib.List.map q m.MsgWriterS.m_qs)) (sec m.MsgWriterS.m_an) (sec m.MsgWriterS.m_ns) (sec m.MsgWriterS.m_ar) (hex b)
 
-let parse_catalog spec =
+(* the catalog is built the way the server's configuration builds it: Catalog::insert / Catalog::remove of the
+   entries in order on the hash-map tree (Model/CatTree.v); the server model runs on the flat view of that tree
+   (Model/ServerCat.v; Props/C07.v c07_catalog_tree_link) - exactly as ocaml/run_srv.ml does *)
+let parse_catalog spec : Server.entry_kind CatTree.cat_op list =
   if spec = "-" then [] else
   Stdlib.List.mapi (fun i e ->
     match String.split_on_char ',' e with
+    | cl :: nm :: "R" :: _ ->
+      CatTree.OpRemove (Server.wire_labels (unhex nm), n_of_int (int_of_string cl))
     | cl :: nm :: st :: _ ->
-      { Server.e_class = n_of_int (int_of_string cl); Server.e_name = labels_of_wirehex nm;
-        Server.e_kind = (match st with "N" -> Server.ENotYetLoaded | "F" -> Server.EFailedToLoad
-                                     | _ -> Server.ELoaded (nat_of_int i)) }
+      CatTree.OpInsert
+        { CatTree.e_class = n_of_int (int_of_string cl); CatTree.e_name = Server.wire_labels (unhex nm);
+          CatTree.e_val = (match st with "N" -> Server.ENotYetLoaded | "F" -> Server.EFailedToLoad
+                                       | _ -> Server.ELoaded (nat_of_int i)) }
     | _ -> failwith "bad catalog entry") (String.split_on_char ';' spec)
 
-(* HashMap insert: a later entry with an equal (class, name) replaces the earlier one *)
-let dedup_catalog es =
-  let rec go acc = function
-    | [] -> Stdlib.List.rev acc
-    | e :: rest ->
-      let same x = x.Server.e_class = e.Server.e_class && x.Server.e_name = e.Server.e_name in
-      go (e :: Stdlib.List.filter (fun x -> not (same x)) acc) rest in
-  go [] es
+let dedup_catalog ops =
+  match ServerCat.tree_of_history ops with
+  | Res.Ok c -> ServerCat.flat_of_tree c
+  | _ -> failwith "catalog operation panicked"
 
 let parse_keys spec =
   if spec = "-" then [] else
